@@ -16,7 +16,7 @@
 (* Input matrices are sent as integers `weight * scale` (scale = 1 for integer   *)
 (* weights, 1000 for weights k/1000) - only their zero pattern, symmetry and     *)
 (* 0/1-ness is ever read here.  n <= 12 (C14 scale regime: label vectors of up to   *)
-(* 320 entries, only compared), |entries| <= 10^6: no product is formed.          *)
+(* 400 entries, only compared), |entries| <= 10^6: no product is formed.          *)
 EXTENDS BctGraph, BctRational
 
 (* ================================ C10 ======================================== *)
@@ -92,6 +92,30 @@ PairAgrees(kind, out1, out2) ==
   /\ Len(out1) = Len(out2)
   /\ \A k \in 1..Len(out1) : ValAgrees(kind, out1[k], out2[k])
 
+(* ---- wide reals (scale-regime records) ---------------------------------------- *)
+(* A real whose E-q6 value v = round(x * 10^6) does not fit below INF is sent as   *)
+(* two integers, v = hi * 10^9 + lo with |lo| < 10^9 and lo of the sign of v       *)
+(* (hi = 0 for every value the plain encoding can hold, so a record without `hi`   *)
+(* sequences is the special case hi = 0 everywhere); inf/nan travel in lo.  The    *)
+(* comparison is the SAME +-tol at 10^-6, carried out without ever forming a       *)
+(* number >= 2^31: l1 - l2 lies in (-2*10^9, 2*10^9), and 10^9 is only added to a  *)
+(* negative difference.                                                            *)
+Giga == 1000000000
+NearQWide(h1, l1, h2, l2, tol) ==
+  IF IsFinite(l1) /\ IsFinite(l2)
+  THEN \/ (h1 = h2 /\ Abs(l1 - l2) <= tol)
+       \/ (h1 = h2 + 1 /\ l1 - l2 < 0 /\ Abs((l1 - l2) + Giga) <= tol)
+       \/ (h2 = h1 + 1 /\ l2 - l1 < 0 /\ Abs((l2 - l1) + Giga) <= tol)
+  ELSE l1 = l2 /\ h1 = h2
+WideWellFormed(h, l) == IF IsFinite(l) THEN (h = 0 \/ (h > 0 /\ l >= 0) \/ (h < 0 /\ l <= 0)) ELSE h = 0
+ValAgreesWide(kind, h1, x, h2, y) ==
+  IF kind = "int" THEN x = y /\ h1 = 0 /\ h2 = 0 ELSE NearQWide(h1, x, h2, y, 2)
+PairAgreesWide(kind, out1, hi1, out2, hi2) ==
+  /\ Len(out1) = Len(out2) /\ Len(hi1) = Len(out1) /\ Len(hi2) = Len(out2)
+  /\ \A k \in 1..Len(out1) : /\ WideWellFormed(hi1[k], out1[k]) /\ WideWellFormed(hi2[k], out2[k])
+                             /\ ValAgreesWide(kind, hi1[k], out1[k], hi2[k], out2[k])
+ZeroHi(out) == [k \in 1..Len(out) |-> 0]
+
 (* ---- input classes (for findings) ------------------------------------------- *)
 HasUnreachablePair(n, A) == \E u \in 1..n : ReachSet(n, A, u) # 1..n
 Adj(A, a, b) == A[a][b] # 0 \/ A[b][a] # 0
@@ -105,9 +129,34 @@ TotDeg(n, A, i) == Cardinality({j \in 1..n : A[i][j] # 0 \/ A[j][i] # 0})
 (* when all nodes that have an edge have the same degree: value undefined        *)
 DegreeVarianceZero(n, A) ==
   Cardinality({TotDeg(n, A, i) : i \in {i \in 1..n : TotDeg(n, A, i) > 0}}) <= 1
+(* the same two predicates for large records (n > BigN: 100..200 nodes), where the *)
+(* definitions above cost n^3 .. n^4 evaluations: neighbour sets are built once,  *)
+(* reachability grows by FRONTIERS, and "some pair is unreachable" is "node 1 does *)
+(* not reach every node or is not reached by every node".  MC_Relations checks     *)
+(* that they coincide with the definitions above on every small 0/1 digraph and    *)
+(* every small symmetric weighted matrix (invariant BigClassesCoincide).           *)
+BigN == 12
+NbrSets(n, A) == Force([i \in 1..n |-> {j \in 1..n : Adj(A, i, j)}])
+TriangleClassBig(n, A) ==
+  LET N  == NbrSets(n, A)
+      on == {i \in 1..n : \E j \in N[i] : N[j] \cap N[i] # {}} IN
+  IF on = {} THEN "triangle_free"
+  ELSE IF on = 1..n THEN "every_node_on_triangle" ELSE "some_node_triangle_free"
+RECURSIVE GrowFrontier(_, _, _, _)
+GrowFrontier(n, Out, S, F) ==
+  LET F2 == (UNION {Out[i] : i \in F}) \ S
+  IN IF F2 = {} THEN S ELSE GrowFrontier(n, Out, S \cup F2, F2)
+OutSets(n, A) == Force([i \in 1..n |-> {j \in 1..n : A[i][j] # 0}])
+InSets(n, A) == Force([j \in 1..n |-> {i \in 1..n : A[i][j] # 0}])
+ReachSetBig(n, A, s) == GrowFrontier(n, OutSets(n, A), {s}, {s})
+HasUnreachablePairBig(n, A) ==
+  \/ GrowFrontier(n, OutSets(n, A), {1}, {1}) # 1..n
+  \/ GrowFrontier(n, InSets(n, A), {1}, {1}) # 1..n
 PairClass(fam, n, A) ==
-  CASE fam = "tri"     -> TriangleClass(n, A)
-    [] fam = "path"    -> IF HasUnreachablePair(n, A) THEN "has_unreachable_pair"
+  CASE fam = "tri"     -> IF n > BigN THEN TriangleClassBig(n, A) ELSE TriangleClass(n, A)
+    [] fam = "path"    -> IF (IF n > BigN THEN HasUnreachablePairBig(n, A)
+                                          ELSE HasUnreachablePair(n, A))
+                          THEN "has_unreachable_pair"
                           ELSE "all_reachable"
     [] fam = "dirness" -> IF IsSym(n, A) THEN "symmetric" ELSE "asymmetric"
     [] OTHER -> "any"
@@ -120,7 +169,7 @@ SamePartitionPairwise(c1, c2) ==
   /\ DOMAIN c1 = DOMAIN c2
   /\ \A i, j \in DOMAIN c1 : (c1[i] = c1[j]) <=> (c2[i] = c2[j])
 (* the same relation without the n^2 node pairs, for the scale-regime records     *)
-(* (130..320 nodes): label1 -> label2 is a well-defined injective map iff the set *)
+(* (130..400 nodes): label1 -> label2 is a well-defined injective map iff the set *)
 (* of joint labels is as large as either label set.  MC_Relations proves it equal *)
 (* to the pairwise definition on every pair of label vectors of the model         *)
 (* (SamePartitionCharacterised, RelabelGivesSamePartition).                        *)
